@@ -50,7 +50,7 @@ def _first(ev, lst, key, nested=None):
     key_ = ("first", idx.get_id())
     if key_ not in ev.path.unfolded:
         ev.path.unfolded.add(key_)
-        ev.path.add_axiom(ax)
+        ev.path.add_axiom(ax, trigger=idx)
         _closure(ev, E, n, h["$alloc"])
     return idx, E
 
@@ -65,13 +65,26 @@ def _closure(ev, E, n, alloc):
     ev.path.add_axiom(z3.ForAll([j], z3.Implies(z3.And(j >= 0, j < n), z3.And(E[j] >= 0, E[j] < alloc)), patterns=[E[j]]))
 
 
+def _split(ev, lst, key, nested):
+    """(idx, E) with a case split when `nested` is a symbolic bool."""
+    from pvc.values import VNone
+
+    if nested is not None and not isinstance(nested, VNone):
+        sn = z3.simplify(nested.t)
+        if not (z3.is_true(sn) or z3.is_false(sn)):
+            it, E = _first(ev, lst, key, VBool(z3.BoolVal(True)))
+            if_, _ = _first(ev, lst, key, VBool(z3.BoolVal(False)))
+            return z3.If(nested.t, it, if_), E
+    return _first(ev, lst, key, nested)
+
+
 def _z3_first_index(ev, lst, key, nested=None):
-    idx, _ = _first(ev, lst, key, nested)
+    idx, _ = _split(ev, lst, key, nested)
     return VInt(idx)
 
 
 def _z3_first_binding(ev, lst, key, nested=None):
-    idx, E = _first(ev, lst, key, nested)
+    idx, E = _split(ev, lst, key, nested)
     return VRef(z3.If(idx >= 0, E[idx], _I(0)), "Binding")
 
 
